@@ -43,3 +43,13 @@ check("C19",
  "Decides structural clauses of C19 only: the per-tile packet enumeration agrees between encoder and decoder for every progression constant (rule EXHAUST-PROG, shared with C04), and the Isot field of every tile-part writer is the tile index unmodified (FLOWS-TILEIDX). Tile bounds arithmetic, origin parity of the per-tile wavelet and global rate allocation are value-level and not decided.",
  "trusted: as C04; SOT writes recognised by the marker constant 0xFF90",
  "DESIGN.md §4 C19")
+check("C05",
+ "data-flow / who-may-store rule on EncodeParams.Lossless resolved per codec registration",
+ "Decides one structural clause of C05 only - 'no accepted parameter value can select the irreversible path on a lossless-only transfer syntax': all 14 Registry.RegisterCodec calls are resolved (syntax, constructor, codec type); for .90 and .92 every store to jpeg2000.EncodeParams.Lossless reachable from the codec's Encode stores the constant true or sits on a branch the registered constructor makes dead. Whether the final layer receives all remaining passes under rate control, and the byte-exact round trip, are value-level and not decided.",
+ "trusted: go/ssa, VTA reachability from the codec's Encode; lossless-only syntax set frozen from the DICOM UIDs in the property statement",
+ "DESIGN.md §4 C05")
+check("C06",
+ "data-flow / who-may-store rule on EncodeParams.Lossless + block-coder factory family agreement",
+ "Decides structural clauses of C06 only: for the HTJ2K Lossless / Lossless RPCL registrations the irreversible path cannot be selected (FLOWS-LOSSLESS as C05, with the constructor's lossless=true making the lossy branch dead), and the codec installs the HT block coder family on both sides (FLOWS-HTFACTORY: HTJ2KMode stored true and BlockEncoderFactory returning *htj2k.HTEncoder in Encode, SetBlockDecoderFactory with a closure returning *htj2k.HTDecoder in Decode). The HT cleanup-pass coding, Kmax/missing-MSB agreement and the third-party fixtures are not decided.",
+ "trusted: as C05",
+ "DESIGN.md §4 C06")
